@@ -155,6 +155,11 @@ func scenarioC06(rc *RunCtx) {
 	f2 := fl
 	f2.FailFile = ""
 	f2.Seed = fl.Seed + 12345 // whatever the second run would generate randomly must not matter
+	if fl.Seed%3 == 0 {
+		// -rapid.nofailfile on the re-run: it stops fail files from being written, not from being found and replayed
+		f2.NoFailFile = true
+		rc.Inc("probe.rerun_with_nofailfile")
+	}
 	variantFlag := t.Chance("c06.flag_variant", 30)
 	dir2 := dir
 	if !variantFlag && t.Chance("c06.flag_elsewhere", 15) {
